@@ -210,34 +210,38 @@ Proof.
   rewrite s32_id by (unfold in_s32, M32; nia). lia.
 Qed.
 
-(* the space test and the advance in `int` arithmetic, for a request that fits in an int *)
-Lemma pack_arith pos size lim : 0 <= pos -> 0 <= size -> pos + size < 2 ^ 31 ->
-  pack_refuses pos size lim = (pos + size >? lim) /\ pack_advance pos size = pos + size /\ u64 size = size.
+(* the space test `size > limit - position` and the advance in `int` arithmetic: exact for EVERY position, size and limit in
+   [0, 2^31) (the difference cannot wrap; a position behind the limit is refused) *)
+Lemma pack_arith pos size lim : 0 <= pos < 2 ^ 31 -> 0 <= size < 2 ^ 31 -> 0 <= lim < 2 ^ 31 ->
+  pack_refuses pos size lim = (pos + size >? lim) /\ u64 size = size /\
+  (pos + size <= lim -> pack_advance pos size = pos + size).
 Proof.
-  intros Hp Hs Hb. change (2 ^ 31) with 2147483648 in Hb. unfold pack_refuses, pack_advance.
+  intros Hp Hs Hl. change (2 ^ 31) with 2147483648 in *. unfold pack_refuses, pack_advance.
   rewrite s32_id by (unfold in_s32, M32; lia). rewrite u64_id by (unfold in_u64, M64; lia).
-  rewrite Z.gtb_ltb. auto.
+  split; [|split; [reflexivity|intros H; apply s32_id; unfold in_s32, M32; lia]].
+  rewrite Z.gtb_ltb. destruct (Z.ltb_spec (lim - pos) size); destruct (Z.ltb_spec lim (pos + size)); lia || reflexivity.
 Qed.
 
 Theorem pack_spec inbuf incount t outbuf outsize pos :
   valid_dt t -> 0 <= incount -> contiguous_ok t incount 0 ->
-  incount * extent t <= len inbuf -> len outbuf = outsize -> 0 <= pos -> pos + incount * type_size t < 2 ^ 31 ->
+  incount * extent t <= len inbuf -> len outbuf = outsize -> 0 <= pos < 2 ^ 31 -> outsize < 2 ^ 31 ->
+  incount * type_size t < 2 ^ 31 ->
   let '(rc, out', pos') := sc_pack inbuf incount t outbuf outsize pos in
   (rc = SUCCESS <-> pos + incount * type_size t <= outsize) /\
   (rc <> SUCCESS -> out' = Some outbuf /\ pos' = pos) /\
   (rc = SUCCESS -> exists o, out' = Some o /\ pack_ok t incount inbuf outbuf pos o pos').
 Proof.
-  intros Hv Hc Hk Hin Hout Hp Hsm. unfold contiguous_ok in Hk. unfold sc_pack, pack_copy.
-  pose proof (dt_bounds t Hv) as (Hb1 & Hb2).
-  rewrite (pack_bytes_small incount t Hv Hc ltac:(nia)).
-  destruct (pack_arith pos (incount * type_size t) outsize Hp ltac:(nia) Hsm) as (-> & -> & ->).
+  intros Hv Hc Hk Hin Hout Hp Hos Hsm. unfold contiguous_ok in Hk. unfold sc_pack, pack_copy.
+  pose proof (dt_bounds t Hv) as (Hb1 & Hb2). pose proof (len_nonneg outbuf) as Hob.
+  rewrite (pack_bytes_small incount t Hv Hc Hsm).
+  destruct (pack_arith pos (incount * type_size t) outsize Hp ltac:(nia) ltac:(lia)) as (-> & -> & Hadv).
   set (sz := type_size t) in *. set (ex := extent t) in *.
   destruct (pos + incount * sz >? outsize) eqn:E.
   - apply Z.gtb_lt in E. split; [split; [discriminate|intros; lia]|]. split; [auto|]. intros H; discriminate H.
   - assert (E' : pos + incount * sz <= outsize) by (destruct (Z.gtb_spec (pos + incount * sz) outsize); [discriminate|lia]).
-    split; [split; [intros; assumption|reflexivity]|].
+    rewrite (Hadv E'). split; [split; [intros; assumption|reflexivity]|].
     split; [intros H; exfalso; apply H; reflexivity|]. intros _.
-    destruct (memcpy_at_spec outbuf pos inbuf 0 (incount * sz) ltac:(nia) ltac:(lia) ltac:(nia) Hp ltac:(lia))
+    destruct (memcpy_at_spec outbuf pos inbuf 0 (incount * sz) ltac:(nia) ltac:(lia) ltac:(nia) ltac:(lia) ltac:(lia))
       as (o & Hm & Hlen & Hcopy & Hrest).
     exists o. split; [assumption|]. unfold pack_ok. fold sz ex.
     split; [reflexivity|]. split; [assumption|]. split.
@@ -251,23 +255,24 @@ Qed.
 
 Theorem unpack_spec inbuf insize pos outbuf outcount t :
   valid_dt t -> 0 <= outcount -> contiguous_ok t outcount 0 ->
-  len inbuf = insize -> outcount * extent t <= len outbuf -> 0 <= pos -> pos + outcount * type_size t < 2 ^ 31 ->
+  len inbuf = insize -> outcount * extent t <= len outbuf -> 0 <= pos < 2 ^ 31 -> insize < 2 ^ 31 ->
+  outcount * type_size t < 2 ^ 31 ->
   let '(rc, out', pos') := sc_unpack inbuf insize pos outbuf outcount t in
   (rc = SUCCESS <-> pos + outcount * type_size t <= insize) /\
   (rc <> SUCCESS -> out' = Some outbuf /\ pos' = pos) /\
   (rc = SUCCESS -> exists o, out' = Some o /\ unpack_ok t outcount inbuf pos outbuf o pos').
 Proof.
-  intros Hv Hc Hk Hin Hout Hp Hsm. unfold contiguous_ok in Hk. unfold sc_unpack, unpack_copy.
-  pose proof (dt_bounds t Hv) as (Hb1 & Hb2).
-  rewrite (pack_bytes_small outcount t Hv Hc ltac:(nia)).
-  destruct (pack_arith pos (outcount * type_size t) insize Hp ltac:(nia) Hsm) as (-> & -> & ->).
+  intros Hv Hc Hk Hin Hout Hp Hos Hsm. unfold contiguous_ok in Hk. unfold sc_unpack, unpack_copy.
+  pose proof (dt_bounds t Hv) as (Hb1 & Hb2). pose proof (len_nonneg inbuf) as Hib.
+  rewrite (pack_bytes_small outcount t Hv Hc Hsm).
+  destruct (pack_arith pos (outcount * type_size t) insize Hp ltac:(nia) ltac:(lia)) as (-> & -> & Hadv).
   set (sz := type_size t) in *. set (ex := extent t) in *.
   destruct (pos + outcount * sz >? insize) eqn:E.
   - apply Z.gtb_lt in E. split; [split; [discriminate|intros; lia]|]. split; [auto|]. intros H; discriminate H.
   - assert (E' : pos + outcount * sz <= insize) by (destruct (Z.gtb_spec (pos + outcount * sz) insize); [discriminate|lia]).
-    split; [split; [intros; assumption|reflexivity]|].
+    rewrite (Hadv E'). split; [split; [intros; assumption|reflexivity]|].
     split; [intros H; exfalso; apply H; reflexivity|]. intros _.
-    destruct (memcpy_at_spec outbuf 0 inbuf pos (outcount * sz) ltac:(nia) Hp ltac:(lia) ltac:(lia) ltac:(nia))
+    destruct (memcpy_at_spec outbuf 0 inbuf pos (outcount * sz) ltac:(nia) ltac:(lia) ltac:(lia) ltac:(lia) ltac:(nia))
       as (o & Hm & Hlen & Hcopy & Hrest).
     exists o. split; [assumption|]. unfold unpack_ok. fold sz ex.
     split; [reflexivity|]. split; [assumption|]. split.
@@ -298,28 +303,79 @@ Proof.
     rewrite Hl. destruct ((0 <=? pos) && (pos + n <=? outsize))%bool; cbn [negb]; split; try discriminate; reflexivity.
 Qed.
 
-(* the statement of pack_spec without `pos + incount * size < 2^31` is false of the code: a legal position in a buffer of
-   INT_MAX bytes and a request of 2 bytes that does not fit are ACCEPTED (position + size wraps), the copy leaves
-   the buffer and the position becomes negative *)
-Theorem pack_overflow_refuted :
+(* ---- regression guard for F-C16c: the space test BEFORE the repair, `*position + size > outsize` ---- *)
+Definition sc_pack_codes_old (count t limit position : Z) : Z * Z * bool :=
+  let size := pack_bytes count t in
+  if pack_refuses_old position size limit then (ERR_NO_SPACE, position, false)
+  else (SUCCESS, pack_advance position size, negb ((0 <=? position) && (position + u64 size <=? limit))).
+
+Lemma pack_codes_old_spec inbuf incount t outbuf outsize pos :
+  len outbuf = outsize -> u64 (pack_bytes incount t) <= len inbuf ->
+  let '(rc, out', pos') := sc_pack_old inbuf incount t outbuf outsize pos in
+  let '(rc2, pos2, over) := sc_pack_codes_old incount t outsize pos in
+  rc = rc2 /\ pos' = pos2 /\ (over = true <-> out' = None).
+Proof.
+  intros Hl Hi. unfold sc_pack_old, sc_pack_codes_old, pack_copy.
+  destruct (pack_refuses_old pos (pack_bytes incount t) outsize).
+  - split; [reflexivity|]. split; [reflexivity|]. split; discriminate.
+  - split; [reflexivity|]. split; [reflexivity|].
+    set (n := u64 (pack_bytes incount t)) in *. pose proof (u64_range (pack_bytes incount t)) as Hr. fold n in Hr.
+    unfold memcpy_at. replace ((0 <=? n) && (0 <=? 0) && (0 + n <=? len inbuf))%bool with true
+      by (symmetry; rewrite !andb_true_iff; repeat split; apply Z.leb_le; lia).
+    unfold put. rewrite len_take, len_drop. replace (Z.min (Z.max n 0) (Z.max 0 (len inbuf - Z.max 0 0))) with n by lia.
+    rewrite Hl. destruct ((0 <=? pos) && (pos + n <=? outsize))%bool; cbn [negb]; split; try discriminate; reflexivity.
+Qed.
+
+(* with the old test the statement of pack_spec is false: a legal position in a buffer of INT_MAX bytes and a request of 2
+   bytes that does not fit are ACCEPTED (position + size wraps), the copy leaves the buffer and the position becomes
+   INT_MIN; with the repaired test the same call is refused and nothing changes *)
+Theorem pack_overflow_old_refuted :
   let t := h_MPI_BYTE in let incount := 2 in let outsize := 2 ^ 31 - 1 in let pos := 2 ^ 31 - 2 in
   valid_dt t /\ 0 <= incount /\ 0 <= pos <= outsize /\ outsize < 2 ^ 31 /\ incount * type_size t < 2 ^ 31 /\
   outsize < pos + incount * type_size t /\
   forall inbuf outbuf, len outbuf = outsize -> incount * extent t <= len inbuf ->
-    let '(rc, out', pos') := sc_pack inbuf incount t outbuf outsize pos in
-    rc = SUCCESS /\ out' = None /\ pos' = - 2 ^ 31.
+    (let '(rc, out', pos') := sc_pack_old inbuf incount t outbuf outsize pos in
+     rc = SUCCESS /\ out' = None /\ pos' = - 2 ^ 31) /\
+    sc_pack inbuf incount t outbuf outsize pos = (ERR_NO_SPACE, Some outbuf, pos).
 Proof.
   cbv zeta. split; [eexists; vm_compute; reflexivity|].
   assert (Hs : type_size h_MPI_BYTE = 1) by (vm_compute; reflexivity). rewrite Hs.
   change (2 ^ 31) with 2147483648. split; [lia|]. split; [lia|]. split; [lia|]. split; [lia|]. split; [lia|].
-  change 2147483648 with (2 ^ 31). intros inbuf outbuf Hl Hi.
-  pose proof (pack_codes_spec inbuf 2 h_MPI_BYTE outbuf (2 ^ 31 - 1) (2 ^ 31 - 2) Hl) as H.
-  assert (Hn : u64 (pack_bytes 2 h_MPI_BYTE) = 2) by (vm_compute; reflexivity).
-  assert (He : extent h_MPI_BYTE = 1) by (vm_compute; reflexivity). rewrite He in Hi.
-  specialize (H ltac:(rewrite Hn; lia)).
-  destruct (sc_pack inbuf 2 h_MPI_BYTE outbuf (2 ^ 31 - 1) (2 ^ 31 - 2)) as [[rc out'] pos'].
-  assert (Hc : sc_pack_codes 2 h_MPI_BYTE (2 ^ 31 - 1) (2 ^ 31 - 2) = (SUCCESS, - 2 ^ 31, true)) by (vm_compute; reflexivity).
-  rewrite Hc in H. destruct H as (H1 & H2 & H3). split; [assumption|]. split; [apply H3; reflexivity|assumption].
+  change 2147483648 with (2 ^ 31). intros inbuf outbuf Hl Hi. split.
+  - pose proof (pack_codes_old_spec inbuf 2 h_MPI_BYTE outbuf (2 ^ 31 - 1) (2 ^ 31 - 2) Hl) as H.
+    assert (Hn : u64 (pack_bytes 2 h_MPI_BYTE) = 2) by (vm_compute; reflexivity).
+    assert (He : extent h_MPI_BYTE = 1) by (vm_compute; reflexivity). rewrite He in Hi.
+    specialize (H ltac:(rewrite Hn; lia)).
+    destruct (sc_pack_old inbuf 2 h_MPI_BYTE outbuf (2 ^ 31 - 1) (2 ^ 31 - 2)) as [[rc out'] pos'].
+    assert (Hc : sc_pack_codes_old 2 h_MPI_BYTE (2 ^ 31 - 1) (2 ^ 31 - 2) = (SUCCESS, - 2 ^ 31, true)) by (vm_compute; reflexivity).
+    rewrite Hc in H. destruct H as (H1 & H2 & H3). split; [assumption|]. split; [apply H3; reflexivity|assumption].
+  - unfold sc_pack. replace (pack_refuses (2 ^ 31 - 2) (pack_bytes 2 h_MPI_BYTE) (2 ^ 31 - 1)) with true by (vm_compute; reflexivity).
+    reflexivity.
+Qed.
+
+(* ---- F-C16d: the product `*size *= incount` of sc_MPI_Pack_size is an `int`.  EXACT domain of Pack / Unpack:
+   count * size < 2^31.  Outside it the statement of pack_spec is false of the code (repaired or not):
+   2^28 long doubles (4 GiB) "fit" into a buffer of 100 bytes: the product wraps to 0, the call is ACCEPTED, nothing is
+   packed and the position stays; MPI on one rank refuses. ---- *)
+Theorem pack_size_overflow_refuted :
+  let t := h_MPI_LONG_DOUBLE in let incount := 2 ^ 28 in let outsize := 100 in let pos := 0 in
+  valid_dt t /\ 0 <= incount < 2 ^ 31 /\ 0 <= pos <= outsize /\ outsize < 2 ^ 31 /\ contiguous_ok t incount 0 /\
+  outsize < pos + incount * type_size t /\ pack_bytes incount t = 0 /\
+  forall inbuf outbuf, len outbuf = outsize ->
+    sc_pack inbuf incount t outbuf outsize pos = (SUCCESS, Some outbuf, pos).
+Proof.
+  cbv zeta. split; [eexists; vm_compute; reflexivity|].
+  split; [vm_compute; split; congruence|]. split; [lia|]. split; [vm_compute; reflexivity|].
+  split; [left; vm_compute; reflexivity|]. split; [vm_compute; reflexivity|]. split; [vm_compute; reflexivity|].
+  intros inbuf outbuf Hl. unfold sc_pack, pack_copy.
+  replace (pack_bytes (2 ^ 28) h_MPI_LONG_DOUBLE) with 0 by (vm_compute; reflexivity).
+  replace (pack_refuses 0 0 100) with false by (vm_compute; reflexivity).
+  change (u64 0) with 0. change (pack_advance 0 0) with 0.
+  unfold memcpy_at. cbn [Z.leb Z.compare andb Z.add]. 
+  replace (0 <=? len inbuf) with true by (symmetry; apply Z.leb_le; apply len_nonneg).
+  unfold drop, take. cbn [Z.to_nat skipn firstn]. unfold put. change (len []) with 0. cbn [Z.add Z.leb Z.compare andb].
+  replace (0 <=? len outbuf) with true by (symmetry; apply Z.leb_le; apply len_nonneg).
+  unfold take, drop. cbn [Z.to_nat skipn firstn app]. reflexivity.
 Qed.
 
 (* ---- completion calls ---- *)
